@@ -275,6 +275,11 @@ pub fn check(ctx: &Ctx) -> i32 {
                     for start in [0u64, 9000] {
                         frags.push(FCfg { codec, via_builder: via, timescale: ts, fragment_ms: 2000, start_dts: start, width: w, height: h, ps_len: 10 });
                     }
+                    // empty and one-byte parameter sets: the records' counts and lengths must
+                    // still describe exactly what follows
+                    for ps in [0usize, 1] {
+                        frags.push(FCfg { codec, via_builder: via, timescale: ts, fragment_ms: 2000, start_dts: 0, width: w, height: h, ps_len: ps });
+                    }
                 }
             }
         }
